@@ -5,6 +5,7 @@ import LinOp.C01.ProofsD
 import LinOp.C01.ProofsE
 import LinOp.C01.ProofsF
 import LinOp.C01.ProofsH
+import LinOp.C01.ProofsI
 import LinOp.C01.ProofsG
 /-!
 C01 — every operator acts exactly as the dense matrix it represents.  Property theorems only.
@@ -815,55 +816,74 @@ variable {α : Type} [CommSemiring α]
 
 /-- The structured evaluator of every tree denotes the tree's dense semantics: by structural induction, using the
 one-level theorem of the outermost class on the dense semantics of the sub-trees. -/
-theorem eval_tree_denotes : ∀ {n m : Nat} (t : Op α n m), t.eval.Denotes t.denseSem := by
+theorem eval_tree_denotes : ∀ {n m : Nat} (t : Op α n m), t.WF → t.eval.Denotes t.denseSem := by
   intro n m t
   induction t with
-  | dense A => exact ofDense_denotes A
+  | dense A => exact fun _ => ofDense_denotes A
   | diag d =>
+    intro _
     refine ⟨fun c X => diag_matmul d X, fun c Y => ?_⟩
     show diagMatmul d Y = Mat.mul (Mat.transpose (Mat.diag d)) Y
     rw [diag_symm]; exact diag_matmul d Y
   | toeplitz col =>
+    intro _
     refine ⟨fun c X => toeplitz_circulant_embedding col col X, fun c Y => ?_⟩
     show toeplitzMatmul col col Y = Mat.mul (Mat.transpose (toeplitzDense col col)) Y
     rw [← toeplitz_symm_transpose]; exact toeplitz_circulant_embedding col col Y
   | sum a b iha ihb =>
+    intro h
+    have iha := iha h.1
+    have ihb := ihb h.2
     refine ⟨fun c X => ?_, fun c Y => ?_⟩
     · show (fun i col => a.eval.mm X i col + b.eval.mm X i col) = _
       rw [iha.1, ihb.1]; exact sum_matmul _ _ X
     · show (fun i col => a.eval.tmm Y i col + b.eval.tmm Y i col) = _
       rw [iha.2, ihb.2]; exact sum_matmul _ _ Y
   | matmul a b iha ihb =>
+    intro h
+    have iha := iha h.1
+    have ihb := ihb h.2
     refine ⟨fun c X => ?_, fun c Y => ?_⟩
     · show a.eval.mm (b.eval.mm X) = _
       rw [ihb.1, iha.1]; exact (C.mul_assoc _ _ X).symm
     · show b.eval.tmm (a.eval.tmm Y) = Mat.mul (Mat.transpose (Mat.mul a.denseSem b.denseSem)) Y
       rw [iha.2, ihb.2, matmulOp_transpose]; exact (C.mul_assoc _ _ Y).symm
   | constMul a k iha =>
+    intro h
+    have iha := iha h
     refine ⟨fun c X => ?_, fun c Y => ?_⟩
     · show (fun i col => a.eval.mm X i col * k) = _
       rw [iha.1]; exact constMul_matmul _ k X
     · show (fun i col => a.eval.tmm Y i col * k) = _
       rw [iha.2]; exact constMul_matmul _ k Y
   | addedDiag a d iha =>
+    intro h
+    have iha := iha h
     refine ⟨fun c X => ?_, fun c Y => ?_⟩
     · show (fun i col => a.eval.mm X i col + d i * X i col) = _
       rw [iha.1]; exact addedDiag_matmul _ d X
     · show (fun i col => a.eval.tmm Y i col + d i * Y i col) = Mat.mul (Mat.transpose (Mat.add a.denseSem (Mat.diag d))) Y
       rw [iha.2, sum_transpose, diag_symm]; exact addedDiag_matmul _ d Y
   | root a iha =>
+    intro h
+    have iha := iha h
     have h : ∀ c (X : Mat α _ c), a.eval.mm (a.eval.tmm X) = Mat.mul (rootDense a.denseSem) X := by
       intro c X; rw [iha.2, iha.1]; exact root_matmul _ X
     refine ⟨h, fun c Y => ?_⟩
     show a.eval.mm (a.eval.tmm Y) = Mat.mul (Mat.transpose (rootDense a.denseSem)) Y
     rw [root_symm]; exact h c Y
-  | transpose a iha => exact ⟨iha.2, iha.1⟩
+  | transpose a iha => exact fun h => ⟨(iha h).2, (iha h).1⟩
   | kron a b iha ihb =>
+    intro h
+    have iha := iha h.1
+    have ihb := ihb h.2
     refine ⟨fun c X => kron_two_step _ _ _ _ iha.1 ihb.1 X, fun c Y => ?_⟩
     show _ = Mat.mul (Mat.transpose (kron2Dense a.denseSem b.denseSem)) Y
     rw [kron2Dense_transpose]
     exact kron_two_step _ _ _ _ iha.2 ihb.2 Y
   | blockDiag blocks ih =>
+    intro h
+    have ih := fun b => ih b (h b)
     refine ⟨fun c X => ?_, fun c Y => ?_⟩
     · show blockDiagRemove (fun b => (blocks b).eval.mm (blockDiagAdd X b)) = _
       have : (fun b => (blocks b).eval.mm (blockDiagAdd X b)) = bmm (fun b => (blocks b).denseSem) (blockDiagAdd X) := by
@@ -874,6 +894,8 @@ theorem eval_tree_denotes : ∀ {n m : Nat} (t : Op α n m), t.eval.Denotes t.de
         funext b; exact (ih b).2 c _
       rw [this, ← blockDiag_transpose]; exact blockDiag_matmul _ Y
   | blockInter blocks ih =>
+    intro h
+    have ih := fun b => ih b (h b)
     refine ⟨fun c X => ?_, fun c Y => ?_⟩
     · show blockInterRemove (fun b => (blocks b).eval.mm (blockInterAdd X b)) = _
       have : (fun b => (blocks b).eval.mm (blockInterAdd X b)) = bmm (fun b => (blocks b).denseSem) (blockInterAdd X) := by
@@ -884,6 +906,8 @@ theorem eval_tree_denotes : ∀ {n m : Nat} (t : Op α n m), t.eval.Denotes t.de
         funext b; exact (ih b).2 c _
       rw [this, ← blockInter_transpose]; exact blockInter_matmul _ Y
   | sumBatch blocks ih =>
+    intro h
+    have ih := fun b => ih b (h b)
     refine ⟨fun c X => ?_, fun c Y => ?_⟩
     · show sumBatchRemove (fun b => (blocks b).eval.mm X) = _
       have : (fun b => (blocks b).eval.mm X) = bmm (fun b => (blocks b).denseSem) (sumBatchAdd X) := by
@@ -894,54 +918,212 @@ theorem eval_tree_denotes : ∀ {n m : Nat} (t : Op α n m), t.eval.Denotes t.de
         funext b; exact (ih b).2 c _
       rw [this]; exact sumBatch_matmul _ Y
   | catRows a b iha ihb =>
+    intro h
+    have iha := iha h.1
+    have ihb := ihb h.2
     refine ⟨fun c X => ?_, fun c Y => ?_⟩
     · show catRows (a.eval.mm X) (b.eval.mm X) = _
       rw [iha.1, ihb.1]; exact cat_matmul_rows _ _ X
     · show (fun i col => a.eval.tmm (topRows Y) i col + b.eval.tmm (botRows Y) i col) = Mat.mul (Mat.transpose (catRows _ _)) Y
       rw [iha.2, ihb.2, catRows_transpose, catCols_mul]
   | catCols a b iha ihb =>
+    intro h
+    have iha := iha h.1
+    have ihb := ihb h.2
     refine ⟨fun c X => ?_, fun c Y => ?_⟩
     · show (fun i col => a.eval.mm (topRows X) i col + b.eval.mm (botRows X) i col) = _
       rw [iha.1, ihb.1]; exact (catCols_mul _ _ X).symm
     · show catRows (a.eval.tmm Y) (b.eval.tmm Y) = Mat.mul (Mat.transpose (catCols _ _)) Y
       rw [iha.2, ihb.2, catCols_transpose]; exact cat_matmul_rows _ _ Y
   | masked a rmask cmask iha =>
+    intro h
+    have iha := iha h
     refine ⟨fun c X => ?_, fun c Y => ?_⟩
     · show maskRows rmask (a.eval.mm (maskExpand cmask X)) = _
       rw [iha.1]; exact masked_matmul _ rmask cmask X
     · show maskRows cmask (a.eval.tmm (maskExpand rmask Y)) = Mat.mul (Mat.transpose (maskedDense _ rmask cmask)) Y
       rw [iha.2, ← masked_transpose]; exact masked_matmul _ cmask rmask Y
   | interp base lidx lval ridx rval ih =>
+    intro h
+    have ih := ih h
     refine ⟨fun c X => ?_, fun c Y => ?_⟩
     · show leftInterp lidx lval (base.eval.mm (leftTInterp ridx rval X)) = _
       rw [ih.1]; exact interp_matmul _ lidx lval ridx rval X
     · show leftInterp ridx rval (base.eval.tmm (leftTInterp lidx lval Y)) = Mat.mul (Mat.transpose (interpDense _ lidx lval ridx rval)) Y
       rw [ih.2, ← interp_transpose]; exact interp_matmul _ ridx rval lidx lval Y
+  | perm p inv =>
+    intro h
+    have h2 := perm_left_inv_of_right_inv p inv h
+    refine ⟨fun c X => perm_matmul p X, fun c Y => ?_⟩
+    show permMatmul inv Y = Mat.mul (Mat.transpose (permDense p)) Y
+    rw [← perm_transpose p inv h h2]; exact perm_matmul inv Y
+  | transposePerm =>
+    intro _
+    refine ⟨fun c X => transposePerm_matmul X, fun c Y => ?_⟩
+    show transposePermMatmul Y = Mat.mul (Mat.transpose transposePermDense) Y
+    rw [transposePerm_symm]; exact transposePerm_matmul Y
+  | chol r upper ih =>
+    intro h
+    have ih := ih h
+    have key : ∀ c (X : Mat α _ c), (if upper then r.eval.tmm (r.eval.mm X) else r.eval.mm (r.eval.tmm X)) =
+        Mat.mul (cholDense r.denseSem upper) X := by
+      intro c X
+      cases upper
+      · rw [if_neg (by decide), ih.2, ih.1]; exact chol_lower_matmul _ X
+      · rw [if_pos rfl, ih.1, ih.2]; exact chol_upper_matmul _ X
+    refine ⟨key, fun c Y => ?_⟩
+    show _ = Mat.mul (Mat.transpose (cholDense r.denseSem upper)) Y
+    rw [chol_symm]; exact key c Y
+  | @mulRoots n' k k' l r ihl ihr =>
+    intro h
+    have ihl := ihl h.1
+    have ihr := ihr h.2
+    have key : ∀ c (X : Mat α n' c), mulRootsWith (toDenseDefault l.eval) (fun Z => r.eval.mm (r.eval.tmm Z)) X =
+        Mat.mul (hadamard (rootDense l.denseSem) (rootDense r.denseSem)) X := by
+      intro c X
+      have hr : (fun Z : Mat α n' (k * c) => r.eval.mm (r.eval.tmm Z)) = fun Z => Mat.mul (rootDense r.denseSem) Z := by
+        funext Z; rw [ihr.2, ihr.1]; exact root_matmul _ Z
+      rw [toDense_default l.eval l.denseSem ihl, hr, mulRootsWith_eq]
+      exact mul_matmul_roots _ _ X
+    refine ⟨key, fun c Y => ?_⟩
+    show _ = Mat.mul (Mat.transpose (hadamard (rootDense l.denseSem) (rootDense r.denseSem))) Y
+    rw [hadamard_symm _ _ (root_symm _) (root_symm _)]; exact key c Y
+  | lowRankRoot a iha =>
+    intro h
+    have iha := iha h
+    have hk : ∀ c (X : Mat α _ c), a.eval.mm (a.eval.tmm X) = Mat.mul (rootDense a.denseSem) X := by
+      intro c X; rw [iha.2, iha.1]; exact root_matmul _ X
+    refine ⟨hk, fun c Y => ?_⟩
+    show a.eval.mm (a.eval.tmm Y) = Mat.mul (Mat.transpose (rootDense a.denseSem)) Y
+    rw [root_symm]; exact hk c Y
+  | identity =>
+    intro _
+    refine ⟨fun c X => (one_mul' X).symm, fun c Y => ?_⟩
+    show Y = Mat.mul (Mat.transpose Mat.one) Y
+    rw [transpose_one]; exact (one_mul' Y).symm
+  | constDiag k =>
+    intro _
+    refine ⟨fun c X => diag_matmul _ X, fun c Y => ?_⟩
+    show diagMatmul (fun _ => k) Y = Mat.mul (Mat.transpose (Mat.diag fun _ => k)) Y
+    rw [diag_symm]; exact diag_matmul _ Y
+  | zero =>
+    intro _
+    exact ⟨fun c X => (zero_mul' X).symm, fun c Y => (zero_mul' Y).symm⟩
+  | kernel K Kt =>
+    intro h
+    refine ⟨fun c X => rfl, fun c Y => ?_⟩
+    show Mat.mul Kt Y = Mat.mul (Mat.transpose K) Y
+    rw [show Kt = Mat.transpose K from h]
 
 
 /-- **Tree refinement** — for every tree `t` of any depth and every right-hand side, the structured `_matmul`
 (outer class calling the structured routines of its sub-operators, recursively) multiplies by the dense semantics. -/
-theorem eval_tree_refines {n m c : Nat} (t : Op α n m) (X : Mat α m c) : t.eval.mm X = Mat.mul t.denseSem X :=
-  (eval_tree_denotes t).1 c X
+theorem eval_tree_refines {n m c : Nat} (t : Op α n m) (h : t.WF) (X : Mat α m c) : t.eval.mm X = Mat.mul t.denseSem X :=
+  (eval_tree_denotes t h).1 c X
 
 /-- The same for `_t_matmul`: it multiplies by the transpose of the dense semantics. -/
-theorem eval_tree_refines_t {n m c : Nat} (t : Op α n m) (Y : Mat α n c) :
+theorem eval_tree_refines_t {n m c : Nat} (t : Op α n m) (h : t.WF) (Y : Mat α n c) :
     t.eval.tmm Y = Mat.mul (Mat.transpose t.denseSem) Y :=
-  (eval_tree_denotes t).2 c Y
+  (eval_tree_denotes t h).2 c Y
 
 /-- `toDense (structured t) = denseSem t`: the base-class default `to_dense` (multiply the identity through the
 structured code, through the transposed operator when there are fewer rows than columns) of any tree is its dense semantics. -/
-theorem toDense_tree {n m : Nat} (t : Op α n m) : t.toDense = t.denseSem :=
-  toDense_default t.eval t.denseSem (eval_tree_denotes t)
+theorem toDense_tree {n m : Nat} (t : Op α n m) (h : t.WF) : t.toDense = t.denseSem :=
+  toDense_default t.eval t.denseSem (eval_tree_denotes t h)
 
 /-- `x @ t` (base-class `rmatmul`, double transpose through the structured code) of any tree. -/
-theorem rmatmul_tree {n m p : Nat} (t : Op α n m) (Y : Mat α p n) : rmatmul t.eval Y = Mat.mul Y t.denseSem :=
-  rmatmul_refines t.eval t.denseSem Y (eval_tree_denotes t)
+theorem rmatmul_tree {n m p : Nat} (t : Op α n m) (h : t.WF) (Y : Mat α p n) : rmatmul t.eval Y = Mat.mul Y t.denseSem :=
+  rmatmul_refines t.eval t.denseSem Y (eval_tree_denotes t h)
 
 /-- transposing a tree transposes its dense semantics, and `mT.mT` is the identity on semantics. -/
 theorem transpose_tree {n m : Nat} (t : Op α n m) : (Op.transpose t).denseSem = Mat.transpose t.denseSem := rfl
 
 theorem mT_mT_tree {n m : Nat} (t : Op α n m) : (Op.transpose (Op.transpose t)).denseSem = t.denseSem := rfl
+
+/-! ### the constructors added to the grammar -/
+
+/-- **Ill-formed permutation pair** (`validate_args=False`): `_matmul` still multiplies by the dense matrix of `perm`, and
+the transposed operator multiplies by the dense matrix of `inv_perm` — whatever `inv_perm` is. -/
+theorem perm_tree_any {n c : Nat} (p inv : Fin n → Fin n) (X : Mat α n c) :
+    (Op.perm (α := α) p inv).eval.mm X = Mat.mul (permDense p) X ∧
+      (Op.perm (α := α) p inv).eval.tmm X = Mat.mul (permDense inv) X :=
+  ⟨perm_matmul p X, perm_matmul inv X⟩
+
+/-- … and that matrix is the transpose of `P` EXACTLY when the pair passes the constructor's validation
+(`perm[inv_perm] = arange`): the guard of `eval_tree_denotes` is necessary, not only sufficient. -/
+theorem perm_transpose_iff [Nontrivial α] {n : Nat} (p inv : Fin n → Fin n) :
+    permDense inv = Mat.transpose (permDense (α := α) p) ↔ ∀ i, p (inv i) = i := by
+  constructor
+  · intro h i
+    have e := congrFun (congrFun h i) (inv i)
+    simp only [permDense, Mat.transpose, if_true] at e
+    by_contra hne
+    rw [if_neg hne] at e
+    exact one_ne_zero e
+  · intro h
+    exact perm_transpose p inv h (perm_left_inv_of_right_inv p inv h)
+
+/-- `LowRankRootAddedDiagLinearOperator` (inherits the addcmul `_matmul` of `AddedDiagLinearOperator`) over any sub-tree:
+structured product = `(A Aᵀ + diag d) X`, both sides. -/
+theorem lowRankRootAddedDiag_tree {n k : Nat} (a : Op α n k) (d : Fin n → α) (h : a.WF) :
+    (Op.lowRankRootAddedDiag a d).eval.Denotes (Mat.add (rootDense a.denseSem) (Mat.diag d)) :=
+  eval_tree_denotes (Op.lowRankRootAddedDiag a d) h
+
+/-- `KroneckerProductAddedDiagLinearOperator` over any two sub-trees: `(A ⊗ B + diag d) X`. -/
+theorem kronAddedDiag_tree {m p : Nat} (a : Op α m m) (b : Op α p p) (d : Fin (m * p) → α) (ha : a.WF) (hb : b.WF) :
+    (Op.kronAddedDiag a b d).eval.Denotes (Mat.add (kron2Dense a.denseSem b.denseSem) (Mat.diag d)) :=
+  eval_tree_denotes (Op.kronAddedDiag a b d) ⟨ha, hb⟩
+
+/-! ### 1-D operands (promotion `unsqueeze(-1)` … `squeeze(-1)`), value and shape -/
+
+/-- `t @ x` with a 1-D `x`: the matrix–vector product with the dense semantics. -/
+theorem matmulVec_tree {n m : Nat} (t : Op α n m) (h : t.WF) (x : Fin m → α) :
+    matmulVec t.eval x = fun i => ∑ j, t.denseSem i j * x j := by
+  funext i
+  simp only [matmulVec, vecOfCol, eval_tree_refines t h, mul_apply, colOfVec]
+
+/-- `t.mT @ y` / `t._t_matmul(y)` with a 1-D `y`. -/
+theorem tmatmulVec_tree {n m : Nat} (t : Op α n m) (h : t.WF) (y : Fin n → α) :
+    tmatmulVec t.eval y = fun j => ∑ i, t.denseSem i j * y i := by
+  funext j
+  simp only [tmatmulVec, vecOfCol, eval_tree_refines_t t h, mul_apply, colOfVec, Mat.transpose]
+
+/-- `y @ t` with a 1-D `y` (`rmatmul` → `self.mT.matmul(other)`): the vector–matrix product. -/
+theorem rmatmulVec_tree {n m : Nat} (t : Op α n m) (h : t.WF) (y : Fin n → α) :
+    rmatmulVec t.eval y = fun j => ∑ i, y i * t.denseSem i j :=
+  rmatmulVec_refines t.eval t.denseSem y (eval_tree_denotes t h)
+
+/-- the 1-D `rmatmul` is the 1-D transposed product (the code path is literally the same). -/
+theorem rmatmulVec_eq_tmatmulVec {n m : Nat} (op : UserOp α n m) (y : Fin n → α) : rmatmulVec op y = tmatmulVec op y := rfl
+
+/-- **Shapes.**  `op @ x`: a 1-D rhs of the right length gives `(*batch, n)`; an `(*sB, m, c)` rhs gives
+`(*broadcast(sA, sB), n, c)`; wrong inner size or non-broadcastable batch shapes raise. -/
+theorem matmulResultShape_vec (sA : List Nat) (n m : Nat) : matmulResultShape sA n m [m] = some (sA ++ [n]) := by
+  simp [matmulResultShape, matmulShapeVec]
+
+theorem matmulResultShape_mat (sA sB : List Nat) (n m c : Nat) :
+    matmulResultShape sA n m (sB ++ [m, c]) = (broadcastShape sA sB).map (· ++ [n, c]) := by
+  have hl : (sB ++ [m, c]).length = sB.length + 2 := by simp
+  cases sB with
+  | nil => simp [matmulResultShape, matmulShape]
+  | cons b sB =>
+    simp only [List.cons_append, matmulResultShape]
+    simp [matmulShape, List.getD_eq_getElem?_getD]
+
+/-- `x @ op` (`rmatmul`): 1-D `x` of length `n` gives `(*batch, m)`; `x = (*sB, c, n)` gives `(*broadcast(sA, sB), c, m)` —
+the shape `torch.matmul(x, dense)` has. -/
+theorem rmatmulResultShape_vec (sA : List Nat) (n m : Nat) : rmatmulResultShape sA n m [n] = some (sA ++ [m]) := by
+  simp [rmatmulResultShape, matmulShapeVec]
+
+theorem rmatmulResultShape_mat (sA sB : List Nat) (n m c : Nat) :
+    rmatmulResultShape sA n m (sB ++ [c, n]) = (broadcastShape sA sB).map (· ++ [c, m]) := by
+  cases sB with
+  | nil =>
+    simp [rmatmulResultShape, matmulShape, broadcastShape_nil_right, List.getD_eq_getElem?_getD]
+  | cons b sB =>
+    simp only [List.cons_append, rmatmulResultShape]
+    simp only [matmulShape, List.getD_eq_getElem?_getD]
+    cases h : broadcastShape sA (b :: sB) <;> simp [h]
 
 end treeH
 
@@ -951,7 +1133,7 @@ example : ∃ (t : Op Int (2 * 2) (2 * 2)), 3 ≤ t.depth ∧ ∀ (X : Mat Int (
   ⟨Op.sum (Op.kron (Op.transpose (Op.matmul (Op.dense fun i j => (i.1 : Int) + 2 * j.1) (Op.diag fun i => (i.1 : Int) + 1)))
       (Op.toeplitz fun i => (3 : Int) - i.1))
     (Op.constMul (Op.root (Op.catRows (Op.dense (n := 2) (m := 3) (fun _ j => (j.1 : Int))) (Op.dense (n := 2) (m := 3) (fun i j => (i.1 : Int) - j.1)))) 2),
-   by decide, fun X => eval_tree_refines _ X⟩
+   by decide, fun X => eval_tree_refines _ (by simp [Op.WF]) X⟩
 
 end LinOp.C01
 
@@ -1025,10 +1207,23 @@ theorem sumBatch_broadcast_refines {m n c : Nat} (k : Nat) (sA sB out idx : List
 BatchRepeat-free nestings of all classes of the grammar) times a broadcast rhs: member `idx` of the structured result is
 the dense semantics of operator member `restrict sA idx` times rhs member `restrict sB idx`. -/
 theorem tree_broadcast_refines {n m c : Nat} (sA sB out idx : List Nat) (t : List Nat → Op α n m) (X : BMat α m c)
-    (h : broadcastShape sA sB = some out) (hb : InBox out idx) :
+    (hwf : ∀ i, (t i).WF) (h : broadcastShape sA sB = some out) (hb : InBox out idx) :
     treeMatmulB sA t sB X idx = Mat.mul ((t (restrict sA idx)).denseSem) (X (restrict sB idx)) ∧
       InBox sA (restrict sA idx) ∧ InBox sB (restrict sB idx) :=
-  ⟨eval_tree_refines _ _, restrict_inBox h hb⟩
+  ⟨eval_tree_refines _ (hwf _) _, restrict_inBox h hb⟩
+
+/-- **Batched tree × broadcasting operand, all three products at once** (composition of `eval_tree_denotes` with the
+broadcasting lemmas): for a batched operator tree with batch shape `sA` and an operand with batch shape `sB` — either may
+have size-1 dims or lack leading dims — member `idx` of `op @ X`, of `op.mT @ Y` and of `Z @ op` is the dense product of the
+operator member `restrict sA idx` with the operand member `restrict sB idx`, and both are valid members. -/
+theorem tree_broadcast_refines_all {n m c : Nat} (sA sB out idx : List Nat) (t : List Nat → Op α n m)
+    (X : BMat α m c) (Y : BMat α n c) (Z : BMat α c n)
+    (hwf : ∀ i, (t i).WF) (h : broadcastShape sA sB = some out) (hb : InBox out idx) :
+    treeMatmulB sA t sB X idx = Mat.mul ((t (restrict sA idx)).denseSem) (X (restrict sB idx)) ∧
+    treeTMatmulB sA t sB Y idx = Mat.mul (Mat.transpose (t (restrict sA idx)).denseSem) (Y (restrict sB idx)) ∧
+    treeRmatmulB sA t sB Z idx = Mat.mul (Z (restrict sB idx)) ((t (restrict sA idx)).denseSem) ∧
+      InBox sA (restrict sA idx) ∧ InBox sB (restrict sB idx) :=
+  ⟨eval_tree_refines _ (hwf _) _, eval_tree_refines_t _ (hwf _) _, rmatmul_tree _ (hwf _) _, restrict_inBox h hb⟩
 
 /-- Kronecker instance of the previous theorem: batched factors `A`, `B` (expanded to the operator batch shape `sA`),
 rhs batch `sB`: member `idx` of the view/transpose loop result is `(A[i] ⊗ B[i]) · X[j]` with `i = restrict sA idx`,
@@ -1038,7 +1233,7 @@ theorem kron_broadcast_refines {m n p q c : Nat} (sA sB out idx : List Nat) (A :
     treeMatmulB sA (fun i => Op.kron (Op.dense (A i)) (Op.dense (B i))) sB X idx =
         Mat.mul (kron2Dense (A (restrict sA idx)) (B (restrict sA idx))) (X (restrict sB idx)) ∧
       InBox sA (restrict sA idx) ∧ InBox sB (restrict sB idx) :=
-  tree_broadcast_refines sA sB out idx _ X h hb
+  tree_broadcast_refines sA sB out idx _ X (fun _ => ⟨trivial, trivial⟩) h hb
 
 /-- **BatchRepeat in batch-index form**: operator batch `[r*b]`, member `ρ*b + β` is `base[β]`; the column-folding code
 returns at that member `base[β] · X[ρ*b+β]`. -/
@@ -1074,5 +1269,22 @@ end batchG
 example : broadcastShape [2, 1] [3] = some [2, 3] ∧ broadcastShape ([2, 1] ++ [2]) ([3] ++ [2]) = some [2, 3, 2] ∧
     InBox [2, 3] [1, 2] ∧ restrict [2, 1] [1, 2] = [1, 0] ∧ restrict [3] [1, 2] = [2] :=
   ⟨by decide, by decide, by simp [InBox], by decide, by decide⟩
+
+/-- … and with the roles exchanged: the OPERATOR lacks a leading dim and has a size-1 dim (`[1,3]` against `[2,4,1]`):
+output member `[1,3,2]` reads operator member `[0,2]` and rhs member `[1,3,0]`. -/
+example : broadcastShape [1, 3] [2, 4, 1] = some [2, 4, 3] ∧ InBox [2, 4, 3] [1, 3, 2] ∧
+    restrict [1, 3] [1, 3, 2] = [0, 2] ∧ restrict [2, 4, 1] [1, 3, 2] = [1, 3, 0] :=
+  ⟨by decide, by simp [InBox], by decide, by decide⟩
+
+/-- Non-vacuity of `Op.WF` on the new constructors: a tree containing a valid permutation pair, a symmetric kernel pair, Chol,
+Mul over roots, LowRankRootAddedDiag, identity / constant-diagonal / zero leaves is well-formed. -/
+example : (Op.sum (Op.matmul (Op.perm (α := Int) (n := 3) (fun i => ⟨(i.1 + 1) % 3, Nat.mod_lt _ (by decide)⟩)
+      (fun i => ⟨(i.1 + 2) % 3, Nat.mod_lt _ (by decide)⟩)) (Op.chol (Op.dense fun i j => if j.1 ≤ i.1 then 1 else 0) true))
+    (Op.sum (Op.mulRoots (Op.kernel (fun (i : Fin 3) (j : Fin 2) => (i.1 : Int) * j.1) (fun j i => (i.1 : Int) * j.1)) (Op.dense (m := 1) fun i _ => (i.1 : Int)))
+      (Op.sum (Op.lowRankRootAddedDiag (Op.dense (m := 2) fun i j => (i.1 : Int) - j.1) (fun _ => 2)) (Op.sum Op.identity (Op.sum (Op.constDiag 3) Op.zero))))).WF := by
+  simp only [Op.WF, Op.lowRankRootAddedDiag, and_true]
+  refine ⟨by decide, ?_⟩
+  funext j i
+  simp [Mat.transpose]
 
 end LinOp.C01
